@@ -32,7 +32,6 @@ def filesRAb : List File → Bool
   | f :: fs => fileRAb f && filesRAb fs
 def fvRAb : Fv → Bool
   | .mk i _ files =>
-    (i.extHeaderOffset == 0 || decide (i.extHeaderOffset + 20 < i.length)) &&
     (!i.resizable || (match i.blocks with
                       | [b0] => isPow2Lt32 b0.size
                       | _ => false)) &&
@@ -79,11 +78,8 @@ theorem fvRAb_sound : ∀ (v : Fv), fvRAb v = true → FvRA v
     rw [fvRAb] at h
     simp only [Bool.and_eq_true, Bool.or_eq_true, beq_iff_eq, decide_eq_true_eq, Bool.not_eq_true'] at h
     rw [FvRA]
-    refine ⟨fun hz => ?_, fun hr => ?_, filesRAb_sound files h.2⟩
-    · rcases h.1.1 with c | c
-      · exact absurd c hz
-      · exact c
-    · rcases h.1.2 with c | c
+    refine ⟨fun hr => ?_, filesRAb_sound files h.2⟩
+    · rcases h.1 with c | c
       · rw [hr] at c; cases c
       · split at c
         · rename_i b0 hb
